@@ -21,13 +21,13 @@ CONSTANTS NumIds,      \* ids IdSeq[1..NumIds]
 (* <<fg, bg>>: "" inherit/default, "-" terminal default, or a colour name *)
 ColorPool == IF Pools = "small"
                THEN { <<"", "">>, <<"RED", "">>, <<"-", "-">> }
-               ELSE { <<"", "">>, <<"RED", "">>, <<"-", "">>, <<"", "BLUE">>, <<"-", "-">>, <<"g3", "(1,2,3)">> }
+               ELSE { <<"", "">>, <<"RED", "">>, <<"-", "">>, <<"", "BLUE">>, <<"-", "-">>, <<"g3", "(1,2,3)">>, <<"0", "0">> }
 (* [bold |-> -1|0|1, ul |-> -1|1]   (-1 = not mentioned, 0 = no_bold) *)
 ModPool == IF Pools = "small"
              THEN { [bold |-> -1, ul |-> -1], [bold |-> 0, ul |-> 1] }
              ELSE { [bold |-> -1, ul |-> -1], [bold |-> 1, ul |-> -1], [bold |-> 0, ul |-> 1] }
 
-IdSeq   == << "G.A", "G.B", "G.C", "H" >>
+IdSeq   == << "G.A", "G.S.B", "G.S.C", "H" >>   \* nested 2 and 3 levels deep in the dict form
 Ids     == { IdSeq[i] : i \in 1 .. NumIds }
 Builtin == "NAME"                    \* BUILT_IN_CONFIG: "NAME": "GREEN:bold"
 Unknown == "U"                       \* never registered
